@@ -348,9 +348,18 @@ func runProperty(id, tier string, keep bool, only string, replayPath string) int
 		vk = append(vk, k)
 	}
 	sort.Strings(vk)
-	for _, k := range vk {
-		fmt.Fprintf(os.Stderr, "--- %s\n%s\n", k, pipeline.Clip(violations[k], 3000))
+	const maxReported = 4
+	for i, k := range vk {
+		if i >= maxReported && replayPath == "" {
+			// the shards usually re-find the same defect; keep the output and /verif/replay small
+			os.RemoveAll(k)
+			continue
+		}
+		fmt.Fprintf(os.Stderr, "--- %s\n%s\n", k, pipeline.Clip(violations[k], 900))
 		fmt.Printf("VIOLATION property=%s replay=%s\n", id, k)
+	}
+	if len(vk) > maxReported && replayPath == "" {
+		fmt.Fprintf(os.Stderr, "(%d further failing cases from other shards not kept)\n", len(vk)-maxReported)
 	}
 	if st := gitStatus(); st != "" && os.Getenv("VERIF_ALLOW_DIRTY") == "" {
 		_ = st // the repository may legitimately be edited by the caller; we never write to it
@@ -359,7 +368,11 @@ func runProperty(id, tier string, keep bool, only string, replayPath string) int
 		return 1
 	}
 	if len(incon) > 0 {
-		for _, s := range incon {
+		for i, s := range incon {
+			if i >= 3 {
+				fmt.Fprintf(os.Stderr, "INCONCLUSIVE: … and %d more\n", len(incon)-3)
+				break
+			}
 			fmt.Fprintln(os.Stderr, "INCONCLUSIVE:", s)
 		}
 		return 2
